@@ -511,6 +511,28 @@ pub fn generate(prop: &str, tier: &str, seed: u64, out: &mut impl Write) {
             if tier == "thorough" {
                 // small-scope exhaustive: every byte string of length 2 through every decoding entry point
                 for a in 0..=255u8 { for b in 0..=255u8 { emit(&[a, b], out, r); } }
+                // every string of length 3..=5 over an alphabet of structurally significant bytes
+                // (function codes with count fields, the exception marker, extreme counts)
+                const ALPHA: [u8; 10] = [0x00, 0x01, 0x02, 0x03, 0x05, 0x0F, 0x10, 0x17, 0x83, 0xFF];
+                for len in 3..=5usize {
+                    let total = ALPHA.len().pow(len as u32);
+                    for mut k in 0..total {
+                        let mut b = Vec::with_capacity(len);
+                        for _ in 0..len { b.push(ALPHA[k % ALPHA.len()]); k /= ALPHA.len(); }
+                        emit(&b, out, r);
+                    }
+                }
+                // length 6..=7 for the PDU decoders alone (minimum-length and byte-count guards live here)
+                for len in 6..=7usize {
+                    const A2: [u8; 7] = [0x00, 0x01, 0x02, 0x03, 0x0F, 0x10, 0xFF];
+                    let total = A2.len().pow(len as u32);
+                    for mut k in 0..total {
+                        let mut b = Vec::with_capacity(len);
+                        for _ in 0..len { b.push(A2[k % A2.len()]); k /= A2.len(); }
+                        let h = hex_of(&b);
+                        writeln!(out, "reqdec {h}").unwrap(); writeln!(out, "rspdec {h}").unwrap(); writeln!(out, "requse {h}").unwrap();
+                    }
+                }
             }
             // every prefix length of TCP 0x0F/0x10/0x17 requests and of 0x18 responses
             for fc in [0x0Fu8, 0x10, 0x17, 0x18, 0x01, 0x0C] {
